@@ -28,6 +28,8 @@ def simulated(rnd, i):
         inst = {'elems': elems, 'load': solver_gen.random_load(rnd, elems, 'small'), 'ctrls': [], 'stops': []}
         dt = solver_gen.pick_dt(rnd, elems)
         n = rnd.randint(1, 7)
+        if i % 2 == 0:
+            inst['load_unit_cycle'] = rnd.sample(['Nm', 'mNm', 'kgfcm', 'mNmm', 'kNm', 'gfm'], 3)      # histories whose samples do not share one unit
         inst['ops'] = [{'op': 'set_initial', 'pos': Fraction(0), 'spd': Fraction(0)}, {'op': 'new_solver', 'sid': 1},
                        {'op': 'run', 'sid': 1, 'dt': dt, 'T': dt * (n + 1), 'dt_unit': rnd.choice(solver_gen.TIME_UNITS), 'T_unit': rnd.choice(solver_gen.TIME_UNITS)}]
         try:
